@@ -52,6 +52,8 @@ pub enum Op {
     Drain { v: u8, t: u8, knob: u16 },
     /// the engine's pauser role is handed to a trading account, or back
     Handover { to: u8 },
+    /// whale trade that puts a holder at / just below maintenance *at the spot price*, a block 1-15 minutes later, a liquidation attempt
+    LagSqueeze { v: u8, target: u8, knob: u16 },
 }
 
 #[derive(Clone, Debug, Serialize, Deserialize, PartialEq, Eq, Hash)]
@@ -91,6 +93,7 @@ pub struct Weights {
     pub burst: u32,
     pub drain: u32,
     pub handover: u32,
+    pub lag: u32,
 }
 
 impl Weights {
@@ -124,6 +127,7 @@ impl Weights {
             burst: 0,
             drain: 0,
             handover: 0,
+            lag: 0,
         }
     }
 }
@@ -343,6 +347,7 @@ pub fn op_strategy(w: &Weights) -> BoxedStrategy<Op> {
         (w.burst, 25),
         (w.drain, 26),
         (w.handover, 27),
+        (w.lag, 28),
     ]
     .into_iter()
     .filter(|(wt, _)| *wt > 0)
@@ -387,7 +392,8 @@ pub fn op_strategy(w: &Weights) -> BoxedStrategy<Op> {
                 24 => Op::Balance { v, t },
                 25 => Op::Burst { v, who: s2, n: s1 },
                 26 => Op::Drain { v, t, knob: k1 },
-                _ => Op::Handover { to: s2 },
+                27 => Op::Handover { to: s2 },
+                _ => Op::LagSqueeze { v, target: t, knob: k1 },
             }
         })
         .boxed()
